@@ -37,6 +37,7 @@ I_INVS = ['I_Pdeps', 'I_Pdependents', 'I_Future', 'I_RunningCap']
 
 SPECS = {
     'C01': dict(
+        jobfn=with_prior_call,
         invs=['A_C01_Returns', 'A_C01_Keys', 'A_C01_Values', 'A_C01_Digest'], props=[],
         fam=dict(quick=dict(n=3, ntypes=1, maxpars=(UNL,), maxws=(1, 2), backends=('fork', 'spawn', 'serial'),
                             cached='all-subsets', reqs='rich', busts=(False, True), sample=6500),
@@ -49,16 +50,20 @@ SPECS = {
         fam=dict(quick=[dict(n=3, ntypes=1, maxpars=(UNL,), maxws=(1, 2), backends=('fork', 'spawn', 'serial'),
                              cached='none', reqs='subsets', fails='singles'),
                         dict(n=3, ntypes=1, maxpars=(UNL,), maxws=(2,), backends=('fork', 'serial'), cached='all-subsets',
-                             reqs='roots', badloads='singles', nonempty_deps=True)],
+                             reqs='roots', badloads='singles', nonempty_deps=True),
+                        dict(n=3, ntypes=1, maxpars=(UNL,), maxws=(2,), backends=('fork', 'serial'), cached='all-subsets',
+                             reqs='roots', busts=(True,), nonempty_deps=True)],
                  thorough=dict(n=3, ntypes=2, maxpars=(1, UNL), maxws=(1, 2, 3), backends=('fork', 'spawn', 'serial'),
-                               cached='all-subsets', reqs='subsets', fails='all-subsets', badloads='singles', sample=60000)),
+                               cached='all-subsets', reqs='subsets', fails='all-subsets', badloads='singles', busts=(False, True),
+                               sample=60000)),
         title='no run() before every dependency finished; reads give the real result or raise'),
     'C03': dict(
         invs=['A_C03_OnlyNeeded', 'A_C03_AtMostOnce', 'A_C03_LoadIffCached'], props=['A_C03_OutcomeStable'],
         fam=dict(quick=dict(n=3, ntypes=1, maxpars=(UNL,), maxws=(2,), backends=('fork', 'serial'),
-                            cached='all-subsets', reqs='rich', busts=(False, True)),
-                 thorough=dict(n=4, ntypes=1, maxpars=(UNL,), maxws=(2,), backends=('fork', 'spawn', 'serial'),
-                               cached='all-subsets', reqs='subsets', busts=(False, True), sample=12000)),
+                            cached='all-subsets', reqs='rich', busts=(False, True), tcache_opts=[(True,), (False,)]),
+                 thorough=dict(n=4, ntypes=2, maxpars=(UNL,), maxws=(2,), backends=('fork', 'spawn', 'serial'),
+                               cached='all-subsets', reqs='subsets', busts=(False, True), sample=14000,
+                               tcache_opts=[(True, True), (False, True), (False, False)])),
         title='at most one execution/load per distinct task, only inside the needed closure, load iff cached'),
     'C04': dict(
         invs=['A_C04_Workers', 'A_C04_Type'], props=[], wide=True,
